@@ -69,6 +69,7 @@ type OracleSet struct {
 	NSProjection    bool // C09: the configuration of one namespace does not depend on the objects of the others
 	Gateway         bool // C10: Gateway API admission reference vs configuration
 	Acme            bool // C17: acme signing decisions and queue tracking
+	Handoff         bool // C14 (L2): what the watchers held when a batch was taken reaches the services
 	Spacing         bool // C13 (L2): reconciliations of one kind keep the configured distance, whoever asked for them
 	Property        string
 }
@@ -506,6 +507,9 @@ func (r *Run) syncPoint(note string) {
 	if r.or.Acme {
 		r.checkAcme(note == "final")
 	}
+	if r.or.Handoff && note == "final" {
+		r.checkHandoff()
+	}
 	if r.or.Routing {
 		r.checkRouting()
 	}
@@ -606,3 +610,20 @@ func dumpTo(dir string, files map[string][]byte) {
 type invalidRun string
 
 func (i invalidRun) Error() string { return "invalid world: " + string(i) }
+
+// checkHandoff (C14 at L2): every change description the watchers held at the instant a reconciliation took
+// its batch was handed to the services by some reconciliation, as often as it was taken. Judged at the final
+// sync point, when no reconciliation is pending.
+func (r *Run) checkHandoff() {
+	r.bmu.Lock()
+	defer r.bmu.Unlock()
+	r.probe("model_compared")
+	for _, d := range sortedKeys(r.batchTaken) {
+		r.probe("c14_descriptions_taken")
+		if r.batchDelivered[d] < r.batchTaken[d] {
+			r.violate(&Violation{Property: "C14", Oracle: "hand-off", Class: "batch-taken-not-delivered",
+				Witness: fmt.Sprintf("the change description %q was in the batch a reconciliation took %d time(s) but reached ReconcileIngress %d time(s)", d, r.batchTaken[d], r.batchDelivered[d])})
+			return
+		}
+	}
+}
